@@ -615,6 +615,34 @@ func runVos(c vosCase) *halfOut {
 		}
 		envs = append(envs, &vosEnv{cfg: cfg, vos: v, log: log, mcomps: mc})
 	}
+	// roaming environments: ONE VirtualOS per layout that changes its working directory between uses of
+	// the same path strings (a resolution that remembers anything keyed by the raw path shows up here)
+	type roamEnv struct {
+		l    *layout
+		vos  *ros.VirtualOS
+		log  *recLog
+		mc   [][]string
+		cwds []string
+	}
+	var roams []*roamEnv
+	for i := range layouts {
+		l := &layouts[i]
+		if c.Layout != "" && l.Name != c.Layout {
+			continue
+		}
+		var abs []string
+		for _, cwd := range l.Cwds {
+			if strings.HasPrefix(cwd, "/") {
+				abs = append(abs, cwd)
+			}
+		}
+		if len(abs) < 2 {
+			continue
+		}
+		log := &recLog{}
+		v, mc := buildVOS(l, log)
+		roams = append(roams, &roamEnv{l: l, vos: v, log: log, mc: mc, cwds: abs})
+	}
 	for pi, p0 := range paths {
 		out.Paths++
 		if nonTrivial(p0) {
@@ -658,6 +686,24 @@ func runVos(c vosCase) *halfOut {
 			}
 			if len(out.Samples) < 3 && nonTrivial(p0) && pi%5 == 2 && ei == (3+11*len(out.Samples)+pi)%len(envs) {
 				out.Samples = append(out.Samples, fmt.Sprintf("VirtualOS{%s}.Stat(%q): reference says %s", e.cfg, p, fmtRef(l, r)))
+			}
+		}
+		for _, re := range roams {
+			p := substitute(p0, re.l.Sub)
+			// two passes over the working directories: the second pass repeats every (cwd, path) pair
+			// after the others have been used in between
+			for pass := 0; pass < 2; pass++ {
+				for _, cwd := range re.cwds {
+					_ = re.vos.Chdir(cwd)
+					e := &vosEnv{cfg: config{L: re.l, Cwd: cwd, Chdir: true}, vos: re.vos, log: re.log, mcomps: re.mc}
+					var raws []vraw
+					r := refResolve(re.mc, cwd, p)
+					for _, op := range singleOps[:3] {
+						e.single(op.name, op.run, p, r, &raws, out.Events)
+					}
+					out.Events["vos-roaming-chdir-uses"]++
+					out.Viols = append(out.Viols, foldVos(e.cfg, p, raws)...)
+				}
 			}
 		}
 		// MkdirTemp: once per layout and temporary directory
